@@ -21,6 +21,14 @@ func selectPatterns(body, v string) []string {
 			out = append(out, ":pattern ("+m+")")
 		}
 	}
+	// applications of a specification function to the bound variable alone
+	re2 := regexp.MustCompile(`\(sf\.[A-Za-z0-9_]+ ` + regexp.QuoteMeta(v) + `\)`)
+	for _, m := range re2.FindAllString(body, -1) {
+		if !seen[m] {
+			seen[m] = true
+			out = append(out, ":pattern ("+m+")")
+		}
+	}
 	sort.Strings(out)
 	return out
 }
